@@ -684,6 +684,67 @@ func racePass() {
 			fmt.Println("FREE-RUNNING-VIOLATION concurrent-search-returns-a-score-of-another-computation: " + bad)
 		}
 	}
+	// many writers, the way the benchmark and the partition's request handlers write: each draws the level of its new item
+	// from the index (RandomLevel) and inserts ids of its own, then removes every second one; afterwards the count and
+	// every id are what a sequential run leaves. 256 ids per writer: all 16 id-map shards fill and some of them empty again.
+	for round := 0; round < 3; round++ {
+		const writers, per = 8, 256
+		ix := index.NewHnsw(4, idxlib.Space("euclidean"))
+		var wg sync.WaitGroup
+		var mu sync.Mutex
+		bad := ""
+		note := func(s string) {
+			mu.Lock()
+			if bad == "" {
+				bad = s
+			}
+			mu.Unlock()
+		}
+		for w := 0; w < writers; w++ {
+			wg.Add(1)
+			go func(w int) {
+				defer wg.Done()
+				defer func() {
+					if r := recover(); r != nil {
+						note(fmt.Sprintf("writer %d panicked: %v", w, r))
+					}
+				}()
+				for i := 0; i < per; i++ {
+					lvl := ix.RandomLevel()
+					if lvl < 0 || lvl > 64 {
+						note(fmt.Sprintf("RandomLevel() = %d while %d writers draw levels", lvl, writers))
+						lvl = 0
+					}
+					id := world.ID(uint64(w*per+i+1), 0x77)
+					if err := ix.Insert(id, []float32{float32(w), float32(i), 1, float32(i % 7)}, nil, lvl); err != nil {
+						note(fmt.Sprintf("insert of a new id: %v", err))
+					}
+					if i%2 == 1 {
+						if err := ix.Remove(id); err != nil {
+							note(fmt.Sprintf("remove of the id just inserted by the same writer: %v", err))
+						}
+					}
+				}
+			}(w)
+		}
+		wg.Wait()
+		if bad == "" && ix.Len() != writers*per/2 {
+			bad = fmt.Sprintf("Len() = %d after %d writers inserted %d ids each and removed every second one", ix.Len(), writers, per)
+		}
+		for w := 0; w < writers && bad == ""; w++ {
+			for i := 0; i < per; i++ {
+				_, err := ix.Get(world.ID(uint64(w*per+i+1), 0x77))
+				if (err == nil) != (i%2 == 0) {
+					bad = fmt.Sprintf("Get of id %d/%d: %v (inserted: yes, removed: %v)", w, i, err, i%2 == 1)
+					break
+				}
+			}
+		}
+		if bad != "" {
+			fmt.Println("FREE-RUNNING-VIOLATION many-writers-leave-a-wrong-collection: " + bad)
+			break
+		}
+	}
 	fmt.Printf("RACEPASS iterations=%d scenarios=%d\n", iters, len(scenarios()))
 }
 
